@@ -8,6 +8,16 @@
 // jitter of each wait from the observed instant of the next POST and compares the whole
 // trace exactly; PropOK is the property's sentence evaluated directly on the observations.
 //
+// Two input classes are spread over every profile and have a profile of their own:
+//   - transport errors of every shape (transportShapes): plain values, *net.OpError, io.EOF,
+//     *url.Error, errors that wrap or claim to be context.DeadlineExceeded / context.Canceled,
+//     the bare error of an inner context made by the transport, net/http's own timeout error
+//     (http.Client.Timeout) - all of them while the CALLER's context is live, so all of them
+//     must be retried; a context error may be the result only once the caller's context ended;
+//   - 200 bodies of every form (parsableForms / unparsableForms): which of them parse is decided
+//     by a reference decoder on the bytes sent (refParses), not by the generator and not by
+//     /repo's types; the first one that parses must end the submission, every other is retried.
+//
 // Build: go1.26 test -c -tags verif -o build/bin/c13 ./cmd/c13
 // Run:   build/bin/c13 -test.run '^TestHarness$' -test.timeout 0 -test.count 1 -out DIR
 
@@ -17,6 +27,7 @@ package main
 import (
 	"bytes"
 	"context"
+	"encoding/base64"
 	"encoding/json"
 	"errors"
 	"fmt"
@@ -24,12 +35,15 @@ import (
 	"math"
 	"math/big"
 	mrand "math/rand"
+	"net"
 	"net/http"
+	"net/url"
 	"os"
 	"sort"
 	"strconv"
 	"strings"
 	"sync"
+	"syscall"
 	"testing"
 	"testing/synctest"
 	"time"
@@ -51,7 +65,7 @@ Local Open Scope Z_scope.
 const (
 	kTransport = iota // RoundTrip returns a (non-context) error
 	kBodyErr          // response whose body fails while being read
-	kRedirect         // 30x + Location, then the final response to the follow-up request
+	kRedirect         // a chain of 1..3 redirects (30x + Location each), then the final response to the last follow-up request
 	kResp             // plain response
 )
 
@@ -59,10 +73,15 @@ type evSpec struct {
 	Dur       time.Duration `json:"dur_ns"`
 	Kind      int           `json:"kind"`
 	Code      int           `json:"code"`
-	RA        *string       `json:"retry_after"` // nil = header absent
-	Parsable  bool          `json:"parsable"`
-	RedirCode int           `json:"redir_code,omitempty"`
-	Synth     bool          `json:"synthesised,omitempty"` // appended because the client asked again after the script ended
+	RA        *string       `json:"retry_after"`                    // nil = header absent
+	Parsable  bool          `json:"parsable"`                       // for a 200: set by finish() from the bytes sent (reference decoder), not by the generator
+	Hops      []int         `json:"redirect_hops,omitempty"`        // kRedirect: the status of every hop of the chain, in order (301/302/303 turn a POST into a GET, 307/308 keep the method)
+	FinalMeth string        `json:"final_request_method,omitempty"` // kRedirect, OBSERVED by the transport: the method of the request that got the final answer
+	Synth     bool          `json:"synthesised,omitempty"`          // appended because the client asked again after the script ended
+	Shape     string        `json:"error_shape,omitempty"`          // kTransport: what kind of error value the transport returns (transportShapes)
+	Form      string        `json:"body_form,omitempty"`            // 200: how the body is written (parsableForms / unparsableForms)
+	Body      string        `json:"body"`                           // the bytes sent (set by finish())
+	NoSCT     bool          `json:"no_sct,omitempty"`               // AddChain/AddPreChain, 200: the JSON decodes but holds no decodable SCT
 }
 
 type callerSpec struct {
@@ -77,6 +96,8 @@ type callerSpec struct {
 type session struct {
 	Profile string       `json:"profile"`
 	Callers []callerSpec `json:"callers"`
+	// http.Client.Timeout of the client (0 = none): a per-attempt limit enforced by net/http itself
+	ClientTimeout time.Duration `json:"client_timeout_ns,omitempty"`
 }
 
 // ---------------------------------------------------------------- observation
@@ -104,13 +125,15 @@ type logLine struct {
 }
 
 type env struct {
-	mu      sync.Mutex
-	t0      time.Time
-	sess    *session
-	obs     []*callerObs
-	next    []int  // next event index per caller
-	follow  []*evSpec // pending follow-up of a redirect, per caller
-	logs    []logLine
+	mu     sync.Mutex
+	t0     time.Time
+	sess   *session
+	obs    []*callerObs
+	next   []int             // next event index per caller
+	cctx   []context.Context // the context each caller passed to the client
+	follow []*evSpec         // pending follow-up of a redirect, per caller
+	hop    []int             // ... and how many hops of its chain have been served
+	logs   []logLine
 }
 
 type ckey struct{}
@@ -152,45 +175,180 @@ func sctBody(id int) []byte {
 	return b
 }
 
-func bodyFor(api, id int, parsable bool, code int) []byte {
-	if code != 200 {
-		return []byte(fmt.Sprintf("body-%d", id))
-	}
-	if !parsable {
-		if id%2 == 0 {
-			return []byte(fmt.Sprintf(`{"timestamp": "not a number %d"`, id)) // truncated JSON
-		}
-		return []byte(fmt.Sprintf(`{"timestamp": "x", "id": %d}`, id)) // well-formed JSON of the wrong shape
-	}
+// forms of a 200 body.  Which of them "parse" is NOT decided here: finish() asks the reference
+// decoder (refParses) about the bytes actually sent.
+var parsableForms = []string{"std", "std", "std", "std", "std", "padded", "padded", "null", "empty-object"}
+var unparsableForms = []string{"empty", "ws-space", "ws-lf", "ws-mixed", "truncated", "truncated", "wrong-field", "wrong-top",
+	"trailing", "trailing", "garbage"}
+
+func goodBody(api, id int) []byte {
 	if api == 0 {
 		return []byte(fmt.Sprintf(`{"timestamp": %d, "id": %d}`, id, id))
 	}
 	return sctBody(id)
 }
 
-func bodyID(b []byte) int {
-	s := string(b)
-	if strings.HasPrefix(s, "body-") {
-		if v, err := strconv.Atoi(s[5:]); err == nil {
-			return v
+func bodyFor(api, id int, form string, code int) []byte {
+	if code != 200 {
+		return []byte(fmt.Sprintf("body-%d", id))
+	}
+	good := goodBody(api, id)
+	switch form {
+	case "padded": // JSON whitespace around a complete value is still that value
+		return []byte(" \r\n\t" + string(good) + "\n \t\r\n")
+	case "null":
+		return []byte("null")
+	case "empty-object":
+		return []byte("{}")
+	case "empty": // Content-Length: 0
+		return []byte{}
+	case "ws-space":
+		return []byte(" ")
+	case "ws-lf":
+		return []byte("\n")
+	case "ws-mixed":
+		return []byte(" \t\r\n \n")
+	case "truncated": // a proper, non-empty prefix of the good body (down to the lone opening brace)
+		return good[:1+(id*7+3)%(len(good)-1)]
+	case "wrong-field": // well-formed JSON, a member of the wrong type
+		return []byte(fmt.Sprintf(`{"timestamp": "x", "id": %d}`, id))
+	case "wrong-top": // well-formed JSON, not an object
+		return []byte([]string{fmt.Sprintf("[%d]", id), fmt.Sprintf(`"%d"`, id), strconv.Itoa(id), "true"}[id%4])
+	case "trailing": // a complete good value followed by something else
+		return append(good, []string{" garbage", "}", string(good), ",", " null", "\x00"}[id%6]...)
+	case "garbage":
+		return []byte(fmt.Sprintf("<html><body>200 OK %d</body></html>", id))
+	}
+	return good
+}
+
+// refParses is the reference for "the body parses": the standard library's json.Unmarshal of
+// the whole body into a value shaped like the expected answer (for AddChain / AddPreChain the
+// outputs of RFC 6962 4.1, written out here), and, for those two, whether that answer holds an
+// SCT: a base64 extensions string and a signature that is exactly one digitally-signed
+// struct (RFC 5246 4.7: hash, signature algorithm, 2-byte length, that many bytes).
+func refParses(api int, body []byte) (parses, sct bool) {
+	if api == 0 {
+		var v struct {
+			Timestamp uint64 `json:"timestamp"`
+			ID        int    `json:"id"`
+		}
+		return json.Unmarshal(body, &v) == nil, true
+	}
+	var v struct {
+		SCTVersion uint64 `json:"sct_version"`
+		ID         []byte `json:"id"`
+		Timestamp  uint64 `json:"timestamp"`
+		Extensions string `json:"extensions"`
+		Signature  []byte `json:"signature"`
+	}
+	if json.Unmarshal(body, &v) != nil {
+		return false, false
+	}
+	_, b64 := base64.StdEncoding.DecodeString(v.Extensions)
+	sig := v.Signature
+	return true, b64 == nil && len(sig) >= 4 && int(sig[2])<<8|int(sig[3]) == len(sig)-4
+}
+
+func hasBody(ev *evSpec) bool { return ev.Kind == kResp || ev.Kind == kRedirect }
+
+// finish writes the bytes of every answer and classifies the 200 ones with the reference decoder.
+func finish(s *session) {
+	for k := range s.Callers {
+		cs := &s.Callers[k]
+		for i := range cs.Evs {
+			ev := &cs.Evs[i]
+			if !hasBody(ev) {
+				continue
+			}
+			ev.Body = string(bodyFor(cs.API, i, ev.Form, ev.Code))
+			if ev.Code == 200 {
+				parses, sct := refParses(cs.API, []byte(ev.Body))
+				ev.Parsable, ev.NoSCT = parses, parses && !sct
+			}
 		}
 	}
-	var r struct {
-		Timestamp uint64 `json:"timestamp"`
+}
+
+// identify: which answer of the script a returned body is, byte for byte (the answer the client
+// got last if it is that one; several answers may carry the same bytes, e.g. none at all)
+func identify(cs *callerSpec, o *callerObs, body []byte) int {
+	if n := len(o.delivered); n > 0 {
+		if ev := &cs.Evs[o.delivered[n-1].idx]; hasBody(ev) && ev.Body == string(body) {
+			return o.delivered[n-1].idx
+		}
 	}
-	if json.Unmarshal(b, &r) == nil {
-		return int(r.Timestamp)
+	for i := range cs.Evs {
+		if ev := &cs.Evs[i]; hasBody(ev) && ev.Body == string(body) {
+			return i
+		}
 	}
 	return -1
+}
+
+// ---------------------------------------------------------------- transport errors of every shape
+
+// like net/http's timeoutError: no Unwrap, reports context.DeadlineExceeded through Is
+type isDeadlineErr struct{}
+
+func (isDeadlineErr) Error() string {
+	return "scripted: gateway timed out (Is context.DeadlineExceeded)"
+}
+func (isDeadlineErr) Timeout() bool   { return true }
+func (isDeadlineErr) Temporary() bool { return true }
+func (isDeadlineErr) Is(t error) bool { return t == context.DeadlineExceeded }
+
+// shapes whose error value is made on the spot; "inner-deadline", "inner-cancel" (a context the
+// transport creates itself) and "client-timeout" (http.Client.Timeout) are produced in RoundTrip
+var valueShapes = []string{"plain", "op-refused", "op-io-timeout", "eof", "unexpected-eof", "url", "wrap-deadline", "wrap-cancel",
+	"op-ctx-deadline", "url-ctx-cancel", "joined-cancel", "is-deadline", "bare-deadline", "bare-cancel"}
+var transportShapes = append([]string{"inner-deadline", "inner-cancel"}, valueShapes...)
+
+func transportErr(shape string) error {
+	switch shape {
+	case "op-refused":
+		return &net.OpError{Op: "dial", Net: "tcp", Err: os.NewSyscallError("connect", syscall.ECONNREFUSED)}
+	case "op-io-timeout":
+		return &net.OpError{Op: "read", Net: "tcp", Err: os.ErrDeadlineExceeded}
+	case "eof":
+		return io.EOF
+	case "unexpected-eof":
+		return io.ErrUnexpectedEOF
+	case "url":
+		return &url.Error{Op: "Post", URL: "http://log.example/ct/v1/add-chain", Err: errors.New("scripted: connection reset by peer")}
+	case "wrap-deadline":
+		return fmt.Errorf("dial tcp 192.0.2.1:443: %w", context.DeadlineExceeded)
+	case "wrap-cancel":
+		return fmt.Errorf("proxyconnect: upstream request aborted: %w", context.Canceled)
+	case "op-ctx-deadline":
+		return &net.OpError{Op: "dial", Net: "tcp", Err: context.DeadlineExceeded}
+	case "url-ctx-cancel":
+		return &url.Error{Op: "Post", URL: "http://log.example/ct/v1/add-chain", Err: context.Canceled}
+	case "joined-cancel":
+		return errors.Join(errors.New("scripted: stream closed"), context.Canceled)
+	case "is-deadline":
+		return isDeadlineErr{}
+	case "bare-deadline":
+		return context.DeadlineExceeded
+	case "bare-cancel":
+		return context.Canceled
+	}
+	return errors.New("scripted network error")
 }
 
 func (e *env) RoundTrip(req *http.Request) (*http.Response, error) {
 	k, _ := req.Context().Value(ckey{}).(int)
 	cs := &e.sess.Callers[k]
 	e.mu.Lock()
-	if f := e.follow[k]; f != nil { // second request of a redirected attempt
-		e.follow[k] = nil
+	if f := e.follow[k]; f != nil { // a follow-up request of a redirected attempt
 		idx := e.next[k] - 1
+		if h := e.hop[k]; h < len(f.Hops) { // the next hop of the chain
+			e.hop[k]++
+			e.mu.Unlock()
+			return redirectResponse(req, f.Hops[h]), nil
+		}
+		e.follow[k] = nil
+		f.FinalMeth = req.Method // observed: what the chain made of the POST
 		e.mu.Unlock()
 		return e.response(req, cs, idx, f.Code, f)
 	}
@@ -203,19 +361,51 @@ func (e *env) RoundTrip(req *http.Request) (*http.Response, error) {
 	idx := e.next[k]
 	if idx >= len(cs.Evs) {
 		// the client asked again after the script ended: answer with a final status
-		cs.Evs = append(cs.Evs, evSpec{Kind: kResp, Code: 404, Synth: true})
+		cs.Evs = append(cs.Evs, evSpec{Kind: kResp, Code: 404, Synth: true, Body: string(bodyFor(cs.API, idx, "", 404))})
 	}
 	e.next[k]++
 	if len(e.sess.Callers) > 1 {
 		// distinct sub-millisecond offsets (one bit per (caller, POST)): no two responses of a
 		// session share an instant, whatever the order in which goroutines run
-		if k < 4 && idx < 4 {
+		// (not for an attempt ended by http.Client.Timeout: its length is the client's, not the script's;
+		// such sessions run their callers one after another)
+		if k < 4 && idx < 4 && cs.Evs[idx].Shape != "client-timeout" {
 			cs.Evs[idx].Dur += time.Duration(1) << uint(4*k+idx)
 		}
 	}
 	ev := cs.Evs[idx]
+	caller := e.cctx[k]
 	e.mu.Unlock()
-	if ev.Dur > 0 {
+	var innerErr error
+	switch {
+	case ev.Kind == kTransport && ev.Shape == "inner-deadline":
+		// a dialer / proxy / round-tripper with its own per-attempt deadline: the error is the
+		// bare error of a context the transport created itself
+		ictx, cancel := context.WithTimeout(req.Context(), ev.Dur)
+		<-ictx.Done()
+		cancel()
+		if caller.Err() != nil {
+			return nil, req.Context().Err()
+		}
+		innerErr = ictx.Err()
+	case ev.Kind == kTransport && ev.Shape == "inner-cancel":
+		ictx, cancel := context.WithCancel(req.Context())
+		tm := time.AfterFunc(ev.Dur, cancel)
+		<-ictx.Done()
+		tm.Stop()
+		cancel()
+		if caller.Err() != nil {
+			return nil, req.Context().Err()
+		}
+		innerErr = ictx.Err()
+	case ev.Kind == kTransport && ev.Shape == "client-timeout":
+		// the server never answers this attempt; http.Client.Timeout (= ev.Dur) ends it
+		<-req.Context().Done()
+		if caller.Err() != nil {
+			return nil, req.Context().Err()
+		}
+		innerErr = req.Context().Err()
+	case ev.Dur > 0:
 		tm := time.NewTimer(ev.Dur)
 		select {
 		case <-req.Context().Done():
@@ -229,17 +419,24 @@ func (e *env) RoundTrip(req *http.Request) (*http.Response, error) {
 	e.mu.Unlock()
 	switch ev.Kind {
 	case kTransport:
-		return nil, errors.New("scripted network error")
+		if innerErr != nil {
+			return nil, innerErr
+		}
+		return nil, transportErr(ev.Shape)
 	case kRedirect:
 		e.mu.Lock()
-		e.follow[k] = &cs.Evs[idx]
+		e.follow[k], e.hop[k] = &cs.Evs[idx], 1
 		e.mu.Unlock()
-		h := http.Header{}
-		h.Set("Location", "http://log.example/moved/elsewhere")
-		return &http.Response{StatusCode: ev.RedirCode, Status: strconv.Itoa(ev.RedirCode) + " redirect", Header: h,
-			Body: io.NopCloser(bytes.NewReader(nil)), Request: req, ProtoMajor: 1, ProtoMinor: 1}, nil
+		return redirectResponse(req, ev.Hops[0]), nil
 	}
 	return e.response(req, cs, idx, ev.Code, &ev)
+}
+
+func redirectResponse(req *http.Request, code int) *http.Response {
+	h := http.Header{}
+	h.Set("Location", "http://log.example/moved/elsewhere")
+	return &http.Response{StatusCode: code, Status: strconv.Itoa(code) + " redirect", Header: h,
+		Body: io.NopCloser(bytes.NewReader(nil)), Request: req, ProtoMajor: 1, ProtoMinor: 1}
 }
 
 func (e *env) response(req *http.Request, cs *callerSpec, idx, code int, ev *evSpec) (*http.Response, error) {
@@ -247,7 +444,7 @@ func (e *env) response(req *http.Request, cs *callerSpec, idx, code int, ev *evS
 	if ev.RA != nil {
 		h.Set("Retry-After", *ev.RA)
 	}
-	var body io.ReadCloser = io.NopCloser(bytes.NewReader(bodyFor(cs.API, idx, ev.Parsable, code)))
+	var body io.ReadCloser = io.NopCloser(strings.NewReader(ev.Body))
 	if ev.Kind == kBodyErr {
 		body = &failingBody{}
 	}
@@ -265,10 +462,12 @@ func runSession(t *testing.T, s *session) (*env, bool) {
 		e.obs = make([]*callerObs, n)
 		e.next = make([]int, n)
 		e.follow = make([]*evSpec, n)
+		e.hop = make([]int, n)
+		e.cctx = make([]context.Context, n)
 		for i := range e.obs {
 			e.obs[i] = &callerObs{logged: map[int]*int64{}, hasLog: map[int]bool{}}
 		}
-		lc, err := client.New("http://log.example/ct", &http.Client{Transport: e}, jsonclient.Options{Logger: logger{e}})
+		lc, err := client.New("http://log.example/ct", &http.Client{Transport: e, Timeout: s.ClientTimeout}, jsonclient.Options{Logger: logger{e}})
 		if err != nil {
 			ok = false
 			return
@@ -304,6 +503,9 @@ func runSession(t *testing.T, s *session) (*env, bool) {
 					}
 				}
 				o := e.obs[k]
+				e.mu.Lock()
+				e.cctx[k] = ctx
+				e.mu.Unlock()
 				func() {
 					defer func() {
 						if r := recover(); r != nil {
@@ -320,8 +522,9 @@ func runSession(t *testing.T, s *session) (*env, bool) {
 						var body []byte
 						_, body, err = lc.PostAndParseWithRetry(ctx, "/ct/v1/add-chain", map[string]int{"k": k}, &out)
 						if err == nil {
-							o.class, o.body = "success", bodyID(body)
-							if int(out.Timestamp) != o.body {
+							o.class, o.body = "success", identify(cs, o, body)
+							// a body that sets the timestamp must have been decoded into the caller's value
+							if o.body >= 0 && (cs.Evs[o.body].Form == "std" || cs.Evs[o.body].Form == "padded") && int(out.Timestamp) != o.body {
 								o.body = -2
 							}
 						}
@@ -346,7 +549,9 @@ func runSession(t *testing.T, s *session) (*env, bool) {
 						case err == context.Canceled:
 							o.class = "ctx-cancel"
 						case errors.As(err, &re):
-							o.class, o.code, o.body = "status", re.StatusCode, bodyID(re.Body)
+							o.class, o.code, o.body = "status", re.StatusCode, identify(cs, o, re.Body)
+						case errors.Is(err, context.DeadlineExceeded) || errors.Is(err, context.Canceled):
+							o.class = "wrapped-ctx" // not a context's own error value: some error that wraps or claims to be one
 						default:
 							o.class = "other"
 						}
@@ -381,9 +586,25 @@ func raForm(ra *string) (string, int64, time.Time) {
 	return "junk", 0, time.Time{}
 }
 
-// methodChanged: net/http turns a POST into a GET on 301, 302, 303 and keeps it on 307, 308.
+func converting(code int) bool { return code == 301 || code == 302 || code == 303 }
+
+// methodChanged: was the request that got the final answer of a redirected attempt no longer a
+// POST?  The transport OBSERVED that request (FinalMeth).  (For an event that was never answered:
+// net/http turns a POST into a GET on 301, 302, 303 and keeps the method on 307, 308, so the POST
+// survives a chain only if every hop is a 307 / 308.)
 func methodChanged(ev *evSpec) bool {
-	return ev.Kind == kRedirect && (ev.RedirCode == 301 || ev.RedirCode == 302 || ev.RedirCode == 303)
+	if ev.Kind != kRedirect {
+		return false
+	}
+	if ev.FinalMeth != "" {
+		return ev.FinalMeth != http.MethodPost
+	}
+	for _, h := range ev.Hops {
+		if converting(h) {
+			return true
+		}
+	}
+	return false
 }
 
 // class of an answered event according to the property's sentence.
@@ -391,6 +612,10 @@ func evClass(ev *evSpec) string {
 	switch {
 	case ev.Kind == kTransport || ev.Kind == kBodyErr || methodChanged(ev):
 		return "retry"
+	case ev.Code == 200 && ev.Parsable && ev.NoSCT:
+		// AddChain / AddPreChain: the first 200 that parses ends the submission; it holds no SCT,
+		// so it is handed back as an error carrying status 200 and the body
+		return "fail"
 	case ev.Code == 200 && ev.Parsable:
 		return "success"
 	case ev.Code == 200:
@@ -499,11 +724,30 @@ func oracle(e *env) string {
 			if ev != nil && ev.RA != nil {
 				ra = strconv.Quote(*ev.RA)
 			}
-			code, kind := 0, -1
+			code, kind, extra := 0, -1, ""
 			if ev != nil {
 				code, kind = ev.Code, ev.Kind
+				if ev.Kind == kTransport {
+					extra = " error-shape=" + ev.Shape
+				} else if ev.Code == 200 && hasBody(ev) {
+					extra = fmt.Sprintf(" body-form=%s body=%q", ev.Form, ev.Body)
+				}
 			}
-			return fmt.Sprintf("%s: caller=%d kind=%d status=%d retry-after=%s result=%s", what, k, kind, code, ra, o.class)
+			return fmt.Sprintf("%s: caller=%d api=%d kind=%d status=%d%s retry-after=%s result=%s", what, k, cs.API, kind, code, extra, ra, o.class)
+		}
+		if o.class == "wrapped-ctx" {
+			// the result is an error that wraps (or claims to be) a context error without being a
+			// context's own error value.  A transport error must be retried while the caller's context
+			// is live; once that context has ended the result must be that context's error itself.
+			var lastEv *evSpec
+			if n := len(o.delivered); n > 0 {
+				lastEv = &cs.Evs[o.delivered[n-1].idx]
+			}
+			if tend == nil || end.Cmp(tend) < 0 {
+				return key(fmt.Sprintf("transport error not retried: the call returned an error wrapping a context error at +%v although the caller's context was live (it ends at +%v)",
+					o.end.Sub(e.t0), cs.CtxEnd), lastEv)
+			}
+			return key("the caller's context ended but the result is not that context's error", lastEv)
 		}
 		if o.class == "panic" || o.class == "other" {
 			return key("unclassified result "+o.errText, nil)
@@ -673,15 +917,23 @@ func assignLogs(e *env) {
 func buildCase(e *env, id int) lib.Case {
 	assignLogs(e)
 	s := e.sess
-	var callers, observed []string
+	var callers, observed, nosct []string
+	anyNoSCT := false
 	tags := []string{"profile:" + s.Profile, fmt.Sprintf("callers:%d", len(s.Callers))}
+	if s.ClientTimeout > 0 {
+		tags = append(tags, "http-client-timeout:set")
+	}
 	var implJ []interface{}
 	for k := range s.Callers {
 		cs := &s.Callers[k]
 		o := e.obs[k]
-		var evs []string
+		var evs, bad []string
 		for i := range cs.Evs {
 			ev := &cs.Evs[i]
+			if ev.NoSCT {
+				bad = append(bad, lib.Z(int64(i)))
+				anyNoSCT = true
+			}
 			j := "(JGiven 0)"
 			// position of this event among the answered ones
 			for pos, d := range o.delivered {
@@ -710,6 +962,7 @@ func buildCase(e *env, id int) lib.Case {
 			kind = "KCancel"
 		}
 		callers = append(callers, fmt.Sprintf("mkCaller (mkCtx %s %s) %s %s", cend, kind, zt(e.t0.Add(cs.Start)), lib.List(evs)))
+		nosct = append(nosct, lib.List(bad))
 		var atts, logs []string
 		for _, a := range o.attempts {
 			atts = append(atts, zt(a))
@@ -752,8 +1005,12 @@ func buildCase(e *env, id int) lib.Case {
 			"body": o.body, "returned_at": o.end.Sub(e.t0).String(), "error": o.errText})
 	}
 	note := oracle(e)
+	coq := fmt.Sprintf("CSession %s %s", lib.List(callers), lib.List(observed))
+	if anyNoSCT {
+		coq = fmt.Sprintf("CSessionSCT %s %s %s", lib.List(callers), lib.List(nosct), lib.List(observed))
+	}
 	return lib.Case{
-		Coq:    fmt.Sprintf("CSession %s %s", lib.List(callers), lib.List(observed)),
+		Coq:    coq,
 		Input:  s,
 		Impl:   implJ,
 		PropOK: note == "",
@@ -785,18 +1042,40 @@ func bucket(n int) string {
 func evTag(ev *evSpec) string {
 	switch ev.Kind {
 	case kTransport:
-		return "transport-error"
+		return "transport-error:" + ev.Shape
 	case kBodyErr:
 		return "body-error"
 	case kRedirect:
-		return fmt.Sprintf("redirect-%d", ev.RedirCode)
+		var hs []string
+		last := "last-hop-keeps-method"
+		for _, h := range ev.Hops {
+			hs = append(hs, strconv.Itoa(h))
+		}
+		if converting(ev.Hops[len(ev.Hops)-1]) {
+			last = "last-hop-converts"
+		}
+		final := strconv.Itoa(ev.Code)
+		if ev.Code == 200 {
+			final = map[bool]string{true: "200-parsable", false: "200-unparsable"}[ev.Parsable]
+		}
+		if methodChanged(ev) {
+			meth := ev.FinalMeth
+			if meth == "" {
+				meth = "another-method(unanswered)"
+			}
+			return fmt.Sprintf("redirect-chain:hops=%d:post-became-%s:%s:final=%s [%s]", len(ev.Hops), meth, last, final, strings.Join(hs, ","))
+		}
+		return fmt.Sprintf("redirect-chain:hops=%d:still-post:final=%s [%s]", len(ev.Hops), final, strings.Join(hs, ","))
 	}
 	t := strconv.Itoa(ev.Code)
 	if ev.Code == 200 {
-		if ev.Parsable {
-			return "200-parsable"
+		switch {
+		case ev.NoSCT:
+			return "200-parsable-no-sct:" + ev.Form
+		case ev.Parsable:
+			return "200-parsable:" + ev.Form
 		}
-		return "200-unparsable"
+		return "200-unparsable:" + ev.Form
 	}
 	if ev.Code == 429 || ev.Code == 503 {
 		form, n, _ := raForm(ev.RA)
@@ -864,8 +1143,27 @@ func genDur(r *mrand.Rand) time.Duration {
 	return time.Duration(r.Intn(500)) * time.Millisecond
 }
 
+// dress: the shape of a transport error, the form of a 200 body (the generator's intention
+// parsable / unparsable picks the list; finish() classifies the bytes)
+func dress(r *mrand.Rand, ev *evSpec) {
+	switch {
+	case ev.Kind == kTransport:
+		ev.Shape = transportShapes[r.Intn(len(transportShapes))]
+	case ev.Code == 200 && hasBody(ev) && ev.Parsable:
+		ev.Form = parsableForms[r.Intn(len(parsableForms))]
+	case ev.Code == 200 && hasBody(ev):
+		ev.Form = unparsableForms[r.Intn(len(unparsableForms))]
+	}
+}
+
 // genEv: one event; at = rough offset at which it may be answered (for date headers)
 func genEv(r *mrand.Rand, at time.Duration, final bool) evSpec {
+	ev := genEv0(r, at, final)
+	dress(r, &ev)
+	return ev
+}
+
+func genEv0(r *mrand.Rand, at time.Duration, final bool) evSpec {
 	ev := evSpec{Dur: genDur(r), Kind: kResp, Parsable: r.Intn(2) == 0}
 	x := r.Intn(100)
 	if final {
@@ -883,7 +1181,7 @@ func genEv(r *mrand.Rand, at time.Duration, final bool) evSpec {
 		ev.Code = []int{200, 500, 503, 404}[r.Intn(4)]
 	case x < 24:
 		ev.Kind = kRedirect
-		ev.RedirCode = []int{301, 302, 303}[r.Intn(3)]
+		ev.Hops = genHops(r, true)
 		ev.Code = []int{200, 200, 404, 503}[r.Intn(4)]
 		ev.Parsable = r.Intn(3) > 0
 	case x < 34:
@@ -900,8 +1198,8 @@ func genEv(r *mrand.Rand, at time.Duration, final bool) evSpec {
 		ev.Code = 503
 		ev.RA = genRA(r, at)
 	case x < 80:
-		ev.Kind = kRedirect // method-preserving redirect: the final answer counts
-		ev.RedirCode = []int{307, 308}[r.Intn(2)]
+		ev.Kind = kRedirect // method-preserving redirects only: the final answer counts
+		ev.Hops = genHops(r, false)
 		ev.Code = []int{200, 404, 503, 408}[r.Intn(4)]
 		ev.Parsable = true
 	case x < 88:
@@ -919,6 +1217,93 @@ func genEv(r *mrand.Rand, at time.Duration, final bool) evSpec {
 		}
 	}
 	return ev
+}
+
+var hopCodes = []int{301, 302, 303, 307, 308}
+
+// genHops: a chain of 1..3 redirects; converting: at least one hop (anywhere in the chain) turns
+// the POST into a GET; otherwise every hop keeps the method
+func genHops(r *mrand.Rand, conv bool) []int {
+	n := 1 + r.Intn(3)
+	hops := make([]int, n)
+	for i := range hops {
+		if conv {
+			hops[i] = hopCodes[r.Intn(5)]
+		} else {
+			hops[i] = hopCodes[3+r.Intn(2)]
+		}
+	}
+	if conv {
+		hops[r.Intn(n)] = hopCodes[r.Intn(3)]
+	}
+	return hops
+}
+
+// allChains: every sequence of 1..3 hops over 301, 302, 303, 307, 308 (155 of them), split into
+// those that turn the POST into another method (141) and those that keep it (14)
+func allChains() (conv, keep [][]int) {
+	var rec func(pre []int, left int)
+	rec = func(pre []int, left int) {
+		if len(pre) > 0 {
+			c := append([]int{}, pre...)
+			isConv := false
+			for _, h := range c {
+				isConv = isConv || converting(h)
+			}
+			if isConv {
+				conv = append(conv, c)
+			} else {
+				keep = append(keep, c)
+			}
+		}
+		if left == 0 {
+			return
+		}
+		for _, h := range hopCodes {
+			rec(append(pre, h), left-1)
+		}
+	}
+	rec(nil, 3)
+	return
+}
+
+// redirectChains: one caller whose script walks through the redirect chains: three chains that
+// turn the POST into another method (whatever their final answer is - a 200 whose body parses, one
+// that does not, another status - the attempt must be retried), then a chain that keeps the POST
+// (its final answer counts), then a plain good answer.  The case number selects the chains, so the
+// cases of a run cover the 155 sequences in turn, in every order of method-changing and
+// method-preserving hops.
+func redirectChains(r *mrand.Rand, i int) *session {
+	conv, keep := allChains()
+	round := i / 24
+	cs := callerSpec{CtxEnd: -1, API: r.Intn(3), Start: time.Duration(r.Intn(3)) * time.Second}
+	final := func(ev *evSpec, j int) {
+		switch j % 4 {
+		case 0, 1:
+			ev.Code, ev.Parsable = 200, true
+			ev.Form = []string{"std", "std", "padded"}[r.Intn(3)]
+		case 2:
+			ev.Code, ev.Parsable = 200, false
+			ev.Form = unparsableForms[r.Intn(len(unparsableForms))]
+		default:
+			ev.Code = []int{404, 500, 503, 408, 429, 204}[r.Intn(6)]
+			if ev.Code == 503 || ev.Code == 429 {
+				ev.RA = genRA(r, cs.Start)
+			}
+		}
+	}
+	for j := 0; j < 3; j++ {
+		ev := evSpec{Dur: genDur(r), Kind: kRedirect, Hops: conv[(round*3+j)*46%len(conv)]}
+		final(&ev, round+j)
+		cs.Evs = append(cs.Evs, ev)
+	}
+	kp := evSpec{Dur: genDur(r), Kind: kRedirect, Hops: keep[round%len(keep)]}
+	final(&kp, round)
+	cs.Evs = append(cs.Evs, kp, evSpec{Kind: kResp, Code: 200, Parsable: true, Form: "std"})
+	if r.Intn(4) == 0 {
+		cs.CtxEnd, cs.Cancel = genCtxEnd(r, cs.Start, 0)
+	}
+	return &session{Profile: "redirect-chains", Callers: []callerSpec{cs}}
 }
 
 func genScript(r *mrand.Rand, start time.Duration, n int) []evSpec {
@@ -978,10 +1363,92 @@ func genCaller(r *mrand.Rand, start time.Duration, k int, maxEv int, forceCtx bo
 	return cs
 }
 
+var clientTimeouts = []time.Duration{2 * time.Second, 10 * time.Second, 45 * time.Second, 90 * time.Second}
+
+// withClientTimeout gives the session's http.Client a per-attempt Timeout T: every scripted answer
+// comes strictly before T, except transport events turned into "the server does not answer this
+// attempt" (shape client-timeout), which net/http ends at exactly T.  Not for concurrent callers
+// (their answers are kept at distinct instants by sub-millisecond offsets of the durations).
+func withClientTimeout(r *mrand.Rand, s *session, atLeastOne bool) *session {
+	T := clientTimeouts[r.Intn(len(clientTimeouts))]
+	s.ClientTimeout = T
+	for k := range s.Callers {
+		evs := s.Callers[k].Evs
+		for i := range evs {
+			if evs[i].Dur >= T {
+				evs[i].Dur %= T
+			}
+			if evs[i].Kind == kTransport && (r.Intn(2) == 0 || (atLeastOne && i == 0)) {
+				evs[i].Shape, evs[i].Dur = "client-timeout", T
+			}
+		}
+	}
+	return s
+}
+
+// retryThenOK: failures of one class (200 bodies that do not parse / transport errors of every
+// shape), each followed by the answer that must be the result: a 200 whose body parses.  The
+// first failure walks through all forms / shapes as the case number grows.
+func retryThenOK(r *mrand.Rand, i int, bodies bool) *session {
+	cs := callerSpec{CtxEnd: -1, API: r.Intn(3), Start: time.Duration(r.Intn(3)) * time.Second}
+	n := 1 + r.Intn(3)
+	round := i / 24
+	for j := 0; j < n; j++ {
+		ev := evSpec{Dur: genDur(r)}
+		if bodies {
+			ev.Kind, ev.Code = kResp, 200
+			ev.Form = unparsableForms[r.Intn(len(unparsableForms))]
+			if j == 0 {
+				ev.Form = unparsableForms[round%len(unparsableForms)]
+			}
+		} else {
+			ev.Kind = kTransport
+			ev.Shape = transportShapes[r.Intn(len(transportShapes))]
+			if j == 0 {
+				ev.Shape = transportShapes[round%len(transportShapes)]
+			}
+		}
+		cs.Evs = append(cs.Evs, ev)
+		if r.Intn(4) == 0 { // some other retryable answer in between
+			o := evSpec{Dur: genDur(r), Kind: kResp, Code: []int{408, 429, 503}[r.Intn(3)]}
+			if r.Intn(2) == 0 {
+				o.RA = genRA(r, cs.Start)
+			}
+			cs.Evs = append(cs.Evs, o)
+		}
+	}
+	last := evSpec{Dur: genDur(r), Kind: kResp, Code: 200, Parsable: true, Form: []string{"std", "std", "padded"}[r.Intn(3)]}
+	if r.Intn(6) == 0 {
+		last.Form = parsableForms[r.Intn(len(parsableForms))]
+	}
+	cs.Evs = append(cs.Evs, last, evSpec{Kind: kResp, Code: 200, Parsable: true, Form: "std"})
+	if r.Intn(3) == 0 {
+		cs.CtxEnd, cs.Cancel = genCtxEnd(r, cs.Start, 0)
+	}
+	if bodies {
+		return &session{Profile: "unparsable-then-ok", Callers: []callerSpec{cs}}
+	}
+	return &session{Profile: "transport-then-ok", Callers: []callerSpec{cs}}
+}
+
 func genSession(r *mrand.Rand, i int) *session {
-	switch x := i % 20; {
+	switch x := i % 24; {
+	case x >= 22:
+		s := retryThenOK(r, i, false)
+		if x == 23 {
+			return withClientTimeout(r, s, (i/24)%2 == 0)
+		}
+		return s
+	case x >= 20:
+		return retryThenOK(r, i, true)
+	case x == 9:
+		return redirectChains(r, i)
 	case x < 10:
-		return &session{Profile: "single", Callers: []callerSpec{genCaller(r, time.Duration(r.Intn(3))*time.Second, 0, 7, false)}}
+		s := &session{Profile: "single", Callers: []callerSpec{genCaller(r, time.Duration(r.Intn(3))*time.Second, 0, 7, false)}}
+		if r.Intn(5) == 0 {
+			return withClientTimeout(r, s, false)
+		}
+		return s
 	case x < 12: // long runs of failures: the exponential cap
 		cs := callerSpec{CtxEnd: -1, API: r.Intn(3)}
 		n := 9 + r.Intn(4)
@@ -995,9 +1462,10 @@ func genSession(r *mrand.Rand, i int) *session {
 			case 2:
 				ev = evSpec{Kind: kResp, Code: 429, RA: func() *string { s := "junk"; return &s }()}
 			}
+			dress(r, &ev)
 			cs.Evs = append(cs.Evs, ev)
 		}
-		cs.Evs = append(cs.Evs, evSpec{Kind: kResp, Code: 200, Parsable: true})
+		cs.Evs = append(cs.Evs, evSpec{Kind: kResp, Code: 200, Parsable: true, Form: "std"})
 		if r.Intn(3) == 0 {
 			cs.CtxEnd, cs.Cancel = time.Duration(100+r.Intn(900))*time.Second+500*time.Microsecond, r.Intn(2) == 0
 		}
@@ -1015,6 +1483,9 @@ func genSession(r *mrand.Rand, i int) *session {
 			} else {
 				start += gap
 			}
+		}
+		if r.Intn(5) == 0 {
+			return withClientTimeout(r, s, false)
 		}
 		return s
 	default: // concurrent callers sharing the client
@@ -1069,6 +1540,7 @@ func TestHarness(t *testing.T) {
 	for i := 0; i < n; i++ {
 		s := genSession(r, i)
 		bound(s)
+		finish(s)
 		cur, curSess = i, s
 		mrand.Seed(lib.Seed()*1000003 + int64(i)) // the client's jitter comes from the global source
 		e, ok := runSession(t, s)
